@@ -45,6 +45,7 @@ std::map<void *, std::vector<int>> g_cv;   // waiters
 int g_mutex_count = 0;
 void * g_msg_mutex = nullptr, * g_process_mutex = nullptr;
 std::vector<Event> g_trace;
+std::vector<Decision> g_decisions;
 std::string * g_verdict = nullptr;
 bool g_peeked_unpopped = false;
 const uint64_t STEP_LIMIT = 3000000;
@@ -90,19 +91,27 @@ int pick() {
             g_now_ns = mn;   // nothing can run: time passes until the next wake-up
             continue;
         }
-        if (en.size() + sleepers.size() > 1 && g_choice_pos < g_sch.choices.size()) {
+        int cur_index = -1;
+        for (size_t k = 0; k < en.size(); ++k) if (en[k] == g_cur) cur_index = (int) k;
+        bool is_choice_point = en.size() + sleepers.size() > 1;
+        if (is_choice_point && g_choice_pos < g_sch.choices.size()) {
             uint32_t c = g_sch.choices[g_choice_pos++];
             if ((c & 0x80000000u) && !sleepers.empty()) {
                 // let a sleeping thread run next although others could: everybody else was slow (time jumps)
                 int s = sleepers[(c & 0x7fffffffu) % sleepers.size()];
                 g_now_ns = T[(size_t) s]->wake_ns;
                 ++g_stats.time_jumps;
+                if (g_decisions.size() < 2000000) g_decisions.push_back(Decision{(uint16_t) en.size(), (int16_t) cur_index, 0xffff});
                 return s;
             }
-            return en[(c & 0x7fffffffu) % en.size()];
+            size_t k = (c & 0x7fffffffu) % en.size();
+            if (g_decisions.size() < 2000000) g_decisions.push_back(Decision{(uint16_t) en.size(), (int16_t) cur_index, (uint16_t) k});
+            return en[k];
         }
-        for (int e : en) if (e == g_cur) return e;   // no choice left: keep running, else lowest id
-        return en[0];
+        // no choice left: keep running, else lowest id
+        size_t k = cur_index >= 0 ? (size_t) cur_index : 0;
+        if (is_choice_point && g_decisions.size() < 2000000) g_decisions.push_back(Decision{(uint16_t) en.size(), (int16_t) cur_index, (uint16_t) k});
+        return en[k];
     }
     return -1;
 }
@@ -161,6 +170,7 @@ bool active() { return g_active; }
 int current_thread() { return g_cur; }
 int64_t now_ms() { return g_now_ns / 1000000; }
 std::vector<Event> & trace() { return g_trace; }
+std::vector<Decision> & decisions() { return g_decisions; }
 Stats & stats() { return g_stats; }
 
 void record(const std::string & what, int64_t a, int64_t b, uint64_t hash, int32_t rc) {
@@ -190,7 +200,7 @@ void join_app(int tid) {
 }
 
 void run(const Schedule & s, const std::function<void()> & app, std::string & verdict) {
-    T.clear(); g_mx.clear(); g_cv.clear(); g_trace.clear();
+    T.clear(); g_mx.clear(); g_cv.clear(); g_trace.clear(); g_decisions.clear();
     g_sch = s; g_choice_pos = 0; g_io_index = 0; g_now_ns = 0; g_stats = Stats(); g_mutex_count = 0; g_msg_mutex = g_process_mutex = nullptr;
     g_peeked_unpopped = false;
     verdict.clear(); g_verdict = &verdict;
